@@ -49,7 +49,7 @@ if [ ! -x "$OUT/cimsim" ] || [ "$(cat "$OUT/sim.fp" 2>/dev/null)" != "$SFP" ]; t
   for a in "$HERE"/sim/*.asm; do
     [ -f "$a" ] && nasm -f elf64 "$a" -o "$OUT/sim/$(basename "$a" .asm)_asm.o"
   done
-  $CC $LDX -no-pie -Wl,-z,noexecstack -o "$OUT/cimsim" "$OUT"/sim/*.o "$OUT/libcimba.a" -lm -lpthread \
+  $CC $LDX -no-pie -Wl,-z,noexecstack -Wl,-Map="$OUT/cimsim.map" -o "$OUT/cimsim" "$OUT"/sim/*.o "$OUT/libcimba.a" -lm -lpthread \
      -Wl,--wrap=pthread_create,--wrap=pthread_join,--wrap=cmi_cpu_cores
   echo "$SFP" > "$OUT/sim.fp"
 fi
